@@ -11,6 +11,7 @@ from vf.vloop import run_virtual, HangDetected
 ID = "C08"
 LEVEL = "exploration"
 BACKENDS = ["pydantic", "fallback"]   # every case is executed under both validation backends
+LOGLEVELS = ["default", "debug"]   # every case also runs with the root logger at DEBUG (as --verbose does)
 SHARDS = {"quick": 4, "thorough": 16}
 BUDGET_S = {"quick": 90.0, "thorough": 600.0}
 TECHNIQUE = ("runtime monitoring: return value / escaping exception of the real ProtocolHandler.handle_message on an "
@@ -107,6 +108,13 @@ def build_server():
                       ("custom/raise_unicode", RuntimeError("\u2028\n\U0001f600")), ("custom/raise_stopasync", StopAsyncIteration()),
                       ("custom/raise_lookup", LookupError())):
         ph.register_method(name, mk_custom_raiser(exc))
+    # handlers that have nothing (or something falsy) to return, through the handler's own response builder
+    def mk_result(val):
+        async def h(message, session_id):
+            return ph.create_response(getattr(message, "id", None), val), None
+        return h
+    for name, val in CUSTOM_RESULTS.items():
+        ph.register_method(name, mk_result(val))
     ph.register_method("custom/ok", custom_ok)
     ph.register_method("custom/raise", custom_raise)
     ph.register_method("notifications/custom-ok", custom_note)
@@ -115,6 +123,8 @@ def build_server():
     return srv
 
 
+CUSTOM_RESULTS = {"custom/result_none": None, "custom/result_empty": {}, "custom/result_list": [], "custom/result_zero": 0,
+                  "custom/result_false": False, "custom/result_str": "", "custom/result_nested_null": {"a": None, "b": [None]}}
 CUSTOM_RAISERS = ["custom/raise_noargs", "custom/raise_timeout", "custom/raise_assert", "custom/raise_intarg",
                   "custom/raise_twoargs", "custom/raise_keyerror", "custom/raise_unicode", "custom/raise_stopasync",
                   "custom/raise_lookup"]
@@ -156,7 +166,7 @@ def params_shapes(method: str) -> List[Any]:
 def gen_cases(ctx):
     rng = ctx.sub_rng("c08")
     core = ["initialize", "ping", "tools/list", "tools/call", "resources/list", "resources/read", "custom/ok",
-            "custom/raise"] + CUSTOM_RAISERS
+            "custom/raise"] + CUSTOM_RAISERS + list(CUSTOM_RESULTS)
     notes = notification_names() + ["notifications/custom-ok", "notifications/custom-raise", "notifications/unknown-thing"]
     randoms = ["", " ", "nope", "tools/", "tools/call ", "TOOLS/CALL", "rpc.discover", " ", "a" * 300,
                "notifications/", "prompts/list", "completion/complete", "logging/setLevel", "sampling/createMessage"]
@@ -171,10 +181,14 @@ def gen_cases(ctx):
                 idsel = [0, "x", "123", 2**53] if with_id else [None]
             else:
                 idsel = ids
-            for ps in shapes:
+            for j, ps in enumerate(shapes):
                 for mid in idsel:
                     for rep in reps:
                         yield {"method": method, "id": mid, "has_id": with_id, "params": ps, "rep": rep}
+                # the same message arriving with a session id: live, deleted/expired, never issued
+                for sess in ("live", "stale", "unknown"):
+                    yield {"method": method, "id": idsel[j % len(idsel)], "has_id": with_id, "params": ps, "rep": "parse",
+                           "session": sess}
 
 
 def build_msg(case):
@@ -196,7 +210,7 @@ def expected_codes(case) -> Any:
     m, p = case["method"], case["params"]
     pd = p if isinstance(p, dict) else {}
     registered = {"initialize", "ping", "tools/list", "tools/call", "resources/list", "resources/read", "custom/ok",
-                  "custom/raise"} | set(CUSTOM_RAISERS)
+                  "custom/raise"} | set(CUSTOM_RAISERS) | set(CUSTOM_RESULTS)
     if m == "":
         return ("error", {-32600, -32601})
     if m not in registered and not m.startswith("notifications/"):
@@ -210,7 +224,7 @@ def expected_codes(case) -> Any:
         return ("anything",)  # a request id on a notification name: statement silent
     if m == "custom/raise" or m in CUSTOM_RAISERS:
         return ("error", {-32603})
-    if m in ("ping", "tools/list", "resources/list", "custom/ok"):
+    if m in ("ping", "tools/list", "resources/list", "custom/ok") or m in CUSTOM_RESULTS:
         return ("result",)
     if m == "initialize":
         if isinstance(pd.get("clientInfo", {}), dict) or pd.get("clientInfo") is None:
@@ -258,7 +272,16 @@ def run(ctx):
                 outs.append((case, "unbuildable", e))
                 continue
             try:
-                r = await h.handle_message(msg)
+                sess = case.get("session")
+                sid = None
+                if sess == "live":
+                    sid = h.session_manager.create_session({"name": "c"}, "2025-06-18")
+                elif sess == "stale":
+                    sid = h.session_manager.create_session({"name": "c"}, "2025-06-18")
+                    h.session_manager.delete_session(sid)
+                elif sess == "unknown":
+                    sid = "never-issued-session-id"
+                r = await h.handle_message(msg, session_id=sid) if sess else await h.handle_message(msg)
                 outs.append((case, "ok", r))
             except BaseException as e:  # noqa
                 if isinstance(e, (KeyboardInterrupt, SystemExit, asyncio.CancelledError)):
